@@ -123,6 +123,7 @@ func c04aliases(rng *sx.Rng, n int) {
 		withAlias := fmt.Sprintf(tmpl, shared, "*sh", "*sh", "*sh", "*sh")
 		inlined := fmt.Sprintf(tmpl, shared, shared, shared, shared, shared)
 		run := func(text string) (string, error) {
+			noteCase("C04", text)
 			p, err := pipeline.Parse(strings.NewReader(text))
 			if err != nil && !warning.Is(err) {
 				return "", err
@@ -173,6 +174,7 @@ func init() {
 			var firstErr error
 			reps := 3
 			for rep := 0; rep < reps; rep++ {
+				noteCase("C04", text)
 				p, err := pipeline.Parse(strings.NewReader(text))
 				if err != nil && !warning.Is(err) {
 					first = nil
